@@ -270,8 +270,9 @@ func runC02(c *runCtx) error {
 	}
 	univ := c02Universe([]string{"", "a", "ab", "abc", "b", "ba", "c"})
 	st := newStore(univ)
-	header := "From Coq Require Import List String.\nFrom KV Require Import Base.Bytes Model.Ast Model.FilterOpt Corr.C02.\nImport ListNotations.\nOpen Scope string_scope.\n" +
-		"Definition univ : list (bytes * bytes) := " + coqPairs(univ) + ".\nDefinition mismatches := mismatches_with univ.\n"
+	header := "From Coq Require Import List String ZArith.\nFrom KV Require Import Model.Value Corr.EvalCommon Model.SelectPlans Corr.C03Stmt Corr.C03Text.\nFrom KV Require Model.Order Spec.Group Corr.C02Text.\nFrom KV Require Import Base.Bytes Model.Ast Model.FilterOpt Corr.C02.\nImport ListNotations.\nOpen Scope string_scope.\n" +
+		"Notation case := xcase (only parsing).\nNotation Case := XCase (only parsing).\n" +
+		"Definition univ : list (bytes * bytes) := " + coqPairs(univ) + ".\nDefinition mismatches := xmismatches_with univ.\n"
 	e := newEmitter(c.out, "C02", header, 1200)
 	e.m.Rule = "all predicate trees of depth <= 2 (atom, atom AND/OR atom) over key atoms (each comparison and prefix test with the literal on either side, IN of 1-3 literals with repeats, BETWEEN in and out of order) and opaque atoms, over the literal pool; plus seeded depth-3/4 nestings exercising combinator pairs; non-trivial = the observed access path is not a full scan; distinct = distinct (tree, region) terms"
 	atoms := append(keyAtoms(pool, c.thorough()), opaqueAtoms...)
@@ -330,6 +331,8 @@ func runC02(c *runCtx) error {
 			c02Case(e, t, univ, st, true)
 		}
 	}
+	// text level: narrowed vs forced full scan on whole statement texts (harness/c02text.go)
+	ntStream(c, e, r)
 	e.m.Exhaustive = c.thorough()
 	return e.flush()
 }
